@@ -20,7 +20,9 @@ HEADER = ('From PK Require Import Version.Version Version.Fields Version.Version
 OP = enums.Operation
 M = enums.CryptographicUsageMask
 SUPPORTED = list(kdrv.VERSIONS)
-UNSUPPORTED = [(0, 9), (1, 5), (2, 1), (3, 0), (1, 10), (0, 0), (1, -1), (2, 10), (10, 0), (1, 20), (-1, 0), (1, 2 ** 31 - 1)]
+UNSUPPORTED = [(0, 9), (1, 5), (2, 1), (3, 0), (1, 10), (0, 0), (1, -1), (2, 10), (10, 0), (1, 20), (-1, 0), (1, 2 ** 31 - 1),
+               # versions whose text reads as a supported one when taken for a decimal number: 1.10 = 1.1, 1.100 = 1.1, 2.00 ...
+               (1, 30), (1, 40), (1, 100), (1, 200), (2, 100), (20, 0), (10, 2), (1, 11), (1, 12)]
 R = enums.ResultReason
 
 # ---- independent oracle tables, written from the KMIP specifications (not from PyKMIP) -----------------------
@@ -42,6 +44,35 @@ SPEC_ATTR_MIN = {'Certificate Length': (1, 1), 'X.509 Certificate Identifier': (
 # attribute name -> version of the specification that no longer has it
 SPEC_ATTR_REMOVED = {'Certificate Identifier': (2, 0), 'Certificate Subject': (2, 0), 'Certificate Issuer': (2, 0),
                      'Operation Policy Name': (2, 0)}
+
+
+def header_variants(eng):
+    """The optional fields of a request header, absent / present (valid values): none of them may change which version the
+    request is processed in."""
+    from kmip.core import objects as cobj
+    BO = enums.BatchErrorContinuationOption
+    auth = contents.Authentication(credentials=[cobj.Credential(
+        credential_type=enums.CredentialType.USERNAME_AND_PASSWORD,
+        credential_value=cobj.UsernamePasswordCredential(username='alice', password='secret'))])
+    now = eng.clock.t
+    return [('none', {}), ('time-stamp', {'time_stamp': now}), ('maximum-response-size', {'max_size': 1 << 20}),
+            ('batch-options', {'batch_option': BO.STOP, 'batch_order': True}), ('asynchronous-false', {'asynchronous': False}),
+            ('authentication', {'auth': auth}),
+            ('all', {'time_stamp': now, 'max_size': 1 << 20, 'batch_option': BO.CONTINUE, 'batch_order': True, 'asynchronous': False, 'auth': auth})]
+
+
+def guarded(ctx, name, fn, *args):
+    """Run one family of the check; an exception inside it (usually thrown by the code under test) is recorded as a broken
+    correspondence and the other families - and their direct oracles - still run."""
+    import traceback
+    try:
+        return fn(*args)
+    except Exception as e:      # noqa
+        tb = traceback.format_exc()
+        ctx.log('family %s raised %s' % (name, type(e).__name__))
+        ctx.broken.append({'kind': 'correspondence', 'name': 'harness/c16.py:' + name,
+                           'detail': 'the family raised: ' + tb[-1500:], 'candidates': []})
+        return None
 
 
 def cver(v):
@@ -72,6 +103,15 @@ class Scene:
 
     def __init__(self, ctx, setup_version=(1, 4)):
         self.eng = kdrv.Engine(workdir=ctx.work)
+        _process = self.eng.process
+
+        def process(req, user='alice', groups=None, _p=_process):
+            try:
+                return _p(req, user, groups)
+            except Exception as e:      # noqa - the session turns this into GENERAL_FAILURE under the request's version
+                return {'error': {'reason': 'GENERAL_FAILURE', 'message': 'process_request raised %s: %s' % (type(e).__name__, e),
+                                  'status': 'OPERATION_FAILED', 'escaped': type(e).__name__}, 'items': [], 'raw': None}
+        self.eng.process = process
         sv = setup_version
         e = self.eng
         r = e.request([kdrv.create(mask=(M.ENCRYPT, M.DECRYPT, M.MAC_GENERATE, M.MAC_VERIFY, M.DERIVE_KEY), names=('k1', 'k2'),
@@ -207,8 +247,13 @@ def comparison_cases(ctx, cases, meta):
     for a in allv:
         for b in allv:
             pa, pb = contents.ProtocolVersion(*a), contents.ProtocolVersion(*b)
-            cases.append('CVerCmp %s %s %s %s %s %s %s' % (cver(a), cver(b), cp.boolean(pa == pb), cp.boolean(pa < pb),
-                                                          cp.boolean(pa > pb), cp.boolean(pa <= pb), cp.boolean(pa >= pb)))
+            try:
+                obs = (pa == pb, pa < pb, pa > pb, pa <= pb, pa >= pb)
+            except Exception as e:      # noqa
+                ctx.disagreement('c16', {'ProtocolVersion comparison raised': type(e).__name__, 'a': a, 'b': b},
+                                 model_says='total comparison of (major, minor)', impl_says=repr(e)[:200])
+                continue
+            cases.append('CVerCmp %s %s %s' % (cver(a), cver(b), ' '.join(cp.boolean(bool(x)) for x in obs)))
             meta.append(('vercmp', a, b))
             ctx.case_seen(('vercmp', a, b))
     ctx.count('cmp.float', len(pairs))
@@ -438,6 +483,43 @@ def query_sequences(ctx, cases, meta):
                             ctx.disagreement('c16', {'Query answer depends on earlier requests of the engine': history, 'version': v2,
                                                      'functions': [f.name for f in fs], 'advertised': [o.name for o in ops],
                                                      'advertised_by_a_fresh_engine': fresh})
+                # the same version-dependent behaviours with each optional header field present: none of them may change the
+                # version the request is processed in
+                for hname, hkw in header_variants(eng):
+                    for op in (OP.DISCOVER_VERSIONS, OP.ENCRYPT, OP.QUERY, OP.GET_ATTRIBUTE_LIST):
+                        r = eng.request([sc.payload(op, v2)], version=v2, **hkw)
+                        stop = hkw.get('batch_option') != enums.BatchErrorContinuationOption.CONTINUE
+                        cases.append(request_case(v2, None, stop, [op], r))
+                        meta.append(('header-variant', hname, [vstr(x) for x in order[:step]], v2, op.name))
+                        ctx.case_seen(('header-variant', hname, v1, step, v2, op.name))
+                        ctx.count('header-variant.%s' % hname)
+                        it = r['items'][0] if r['items'] else None
+                        wit = {'earlier_versions_on_this_engine': [vstr(x) for x in order[:step]], 'version': v2,
+                               'optional_header_fields': hname, 'operation': op.name, 'error': r['error'], 'result': strip(it)}
+                        if r['error'] is not None or r['header']['version'] != v2:
+                            ctx.violation({'class': 'echo', 'version': vstr(v2)}, wit, 'request in supported KMIP %s (header fields: %s) was not answered in KMIP %s' % (vstr(v2), hname, vstr(v2)))
+                            continue
+                        if SPEC_OP_MIN[op] > v2 and (it is None or it['reason'] != 'OPERATION_NOT_SUPPORTED'):
+                            ctx.violation({'class': 'op-gate', 'op': op.name, 'version': vstr(v2)}, wit,
+                                          '%s (introduced in KMIP %s) was accepted under KMIP %s when the request carries %s and follows requests in KMIP %s' % (
+                                              op.name, vstr(SPEC_OP_MIN[op]), vstr(v2), hname, ', '.join(wit['earlier_versions_on_this_engine']) or '(none)'))
+                        if op == OP.QUERY and it is not None and kdrv.ok(it):
+                            qops = [o if isinstance(o, OP) else o.value for o in (it['raw'].response_payload.operations or [])]
+                            cases.append('CQuery %s %s' % (cver(v2), cp.lst(qops, lambda o: cp.z(o.value))))
+                            meta.append(('header-variant-query', hname, v2))
+                            late = [o.name for o in qops if SPEC_OP_MIN[o] > v2]
+                            if late:
+                                wit['advertised'] = [o.name for o in qops]
+                                ctx.violation({'class': 'query-advertises-later-op', 'op': late[0], 'version': vstr(v2)}, wit,
+                                              'Query under KMIP %s (header fields: %s) advertises %s, introduced later' % (vstr(v2), hname, late[0]))
+                        if op == OP.GET_ATTRIBUTE_LIST and it is not None and kdrv.ok(it):
+                            names = list(it['raw'].response_payload.attribute_names)
+                            for n in names:
+                                if SPEC_ATTR_MIN.get(n, (1, 0)) > v2 or (n in SPEC_ATTR_REMOVED and v2 >= SPEC_ATTR_REMOVED[n]):
+                                    wit['reported'] = names
+                                    ctx.violation({'class': 'attr-reported', 'attribute': n, 'version': vstr(v2)}, wit,
+                                                  'attribute %r is reported under KMIP %s (header fields: %s) although that version does not have it' % (n, vstr(v2), hname))
+                                    break
                 if v2 >= (1, 1):
                     for client in clients:
                         r = eng.request([kdrv.discover_versions(client)], version=v2)
@@ -664,22 +746,26 @@ def acceptance_cases(ctx, cases, meta):
     sc = Scene(ctx)
     try:
         vs = SUPPORTED + UNSUPPORTED + [(rng.randrange(-2, 5), rng.randrange(-2, 30)) for _ in range(40)]
-        for v in vs:
-            spy = Spy(sc.eng.engine, [])
+        hvs = header_variants(sc.eng)
+        # an accepted request in a supported version before each probe: the engine must not carry anything over
+        probes = [(v, hv, prev) for v in vs for hv in hvs for prev in ((1, 4),)] + [(v, hvs[1], prev) for v in UNSUPPORTED for prev in SUPPORTED]
+        for v, (hname, hkw), prev in probes:
+            sc.eng.request([kdrv.query()], version=prev)
             before = sc.eng.dump()
-            r = sc.eng.request([kdrv.query()], version=v)
+            r = sc.eng.request([kdrv.query()], version=v, **hkw)
             acc = r['error'] is None
             cases.append('CAccept %s %s' % (cver(v), cp.boolean(acc)))
-            meta.append(('accept', v))
-            ctx.case_seen(('accept', v))
+            meta.append(('accept', v, hname, prev))
+            ctx.case_seen(('accept', v, hname, prev))
+            ctx.count('accept.header-%s' % hname)
             if acc:
                 echo_oracle(ctx, v, [OP.QUERY], r)
             if not acc and (r['error']['reason'] != 'INVALID_MESSAGE' or r['error']['message'] != 'KMIP %d.%d is not supported by the server.' % v
                             or before != sc.eng.dump()):
-                ctx.violation({'class': 'unsupported-version', 'version': vstr(v)}, {'version': v, 'error': r['error']},
+                ctx.violation({'class': 'unsupported-version', 'version': vstr(v)}, {'version': v, 'optional_header_fields': hname, 'previous_request_version': prev, 'error': r['error']},
                               'unsupported version not refused with the InvalidMessage of _set_protocol_version')
             if acc != (v in SUPPORTED):
-                ctx.violation({'class': 'version-acceptance', 'version': vstr(v)}, {'version': v, 'accepted': acc},
+                ctx.violation({'class': 'version-acceptance', 'version': vstr(v)}, {'version': v, 'optional_header_fields': hname, 'previous_request_version': prev, 'accepted': acc},
                               'KMIP %s is %s, the specification versions the server implements are %s' % (
                                   vstr(v), 'accepted' if acc else 'refused', ', '.join(vstr(x) for x in SUPPORTED)))
     finally:
@@ -707,21 +793,23 @@ def run(ctx):
         ctx.notes.append('class-level version refusals of gen/Schemas.v whose class Version/Spec.v (SpecClassVersions) does not list '
                          '(not compared with the specification, to be decided): ' + unc[:600])
     cases, meta = [], []
-    comparison_cases(ctx, cases, meta)
-    acceptance_cases(ctx, cases, meta)
-    advertised = operation_matrix(ctx, cases, meta)
-    query_discover_cases(ctx, cases, meta, advertised)
-    query_sequences(ctx, cases, meta)
-    attribute_matrix(ctx, cases, meta)
-    c16_fields.field_cases(ctx, cases, meta)
-    c16_session.session_cases(ctx, cases, meta)
+    guarded(ctx, 'comparison_cases', comparison_cases, ctx, cases, meta)
+    guarded(ctx, 'acceptance_cases', acceptance_cases, ctx, cases, meta)
+    advertised = guarded(ctx, 'operation_matrix', operation_matrix, ctx, cases, meta) or {}
+    guarded(ctx, 'query_discover_cases', query_discover_cases, ctx, cases, meta, advertised)
+    guarded(ctx, 'query_sequences', query_sequences, ctx, cases, meta)
+    guarded(ctx, 'attribute_matrix', attribute_matrix, ctx, cases, meta)
+    guarded(ctx, 'field_cases', c16_fields.field_cases, ctx, cases, meta)
+    guarded(ctx, 'session_cases', c16_session.session_cases, ctx, cases, meta)
+    guarded(ctx, 'mixed_version_cases', c16_session.mixed_version_cases, ctx, cases, meta)
+    guarded(ctx, 'answer_path_cases', c16_session.answer_path_cases, ctx, cases, meta)
     ctx.log('%d correspondence cases built' % len(cases))
     bad = ctx.run_cases('c16', HEADER, cases, 'check_vcase',
                         what='Version.v / Fields.v model vs KmipEngine, KmipSession, payload classes, ProtocolVersion')
     for i in bad[:20]:
         model = ctx.model_output(HEADER, 'model_view (%s)' % cases[i]) if len(cases[i]) < 20000 else None
         ctx.disagreement('c16', describe(meta[i], cases[i]), model_says=model, impl_says=cases[i][:4000])
-    for k in (0, len(cases) // 3, 2 * len(cases) // 3, len(cases) - 1):
+    for k in ((0, len(cases) // 3, 2 * len(cases) // 3, len(cases) - 1) if cases else ()):
         ctx.sample({'case': meta[k], 'coq': cases[k][:300]})
     ctx.cov['trusted_extra'] = [
         'translate/gen_versions.py (ast over engine.py, payload classes; fails closed) and gen_attrrules.py (reflection)',
@@ -753,6 +841,8 @@ def replay(ctx, rec):
         c16_fields.field_cases(ctx, cases, meta)
     if fam in (None, 'session', 'ops'):
         c16_session.session_cases(ctx, cases, meta)
+        c16_session.mixed_version_cases(ctx, cases, meta)
+        c16_session.answer_path_cases(ctx, cases, meta)
     hits = [v for v in ctx.violations if all(v['signature'].get(k) == x for k, x in sig.items())] if sig else list(ctx.violations)
     known = sorted(ctx.known_hits)
     if hits:
